@@ -44,9 +44,11 @@ pub fn version_to_model(v: &Version) -> VModel {
 /// Is this identifier string canonical as an `AlphaNumeric` (non-empty, over `[0-9A-Za-z-]`,
 /// and not something the parser would read as a number)?
 pub fn canonical_alnum(s: &str) -> bool {
+    // an all-digit string is a number, whatever its size: one that does not fit a u64 is an
+    // `AlphaNumeric` only by this parser's fallback, which is not something to build values from
     !s.is_empty()
         && s.bytes().all(|b| b.is_ascii_alphanumeric() || b == b'-')
-        && s.parse::<u64>().is_err()
+        && !s.bytes().all(|b| b.is_ascii_digit())
 }
 
 fn tuple_version(ty: u8, a: u64, b: u64, c: u64, d: Option<u64>) -> Option<Version> {
